@@ -30,3 +30,11 @@ Example C11_premise_satisfiable :
   parse_result MSimple [] (JInt 7%Z) r0
     = Some (JDict [("select", JDict [("value", JDict [("over", JInt 7%Z); ("f", JList [JStr "a"; JInt 7%Z])])]); ("from", JStr "t")]).
 Proof. vm_compute. repeat split; reflexivity. Qed.
+
+(* listed finding C11:function-named-null at model level: a zero-argument call of a function named null is written by simple_op exactly like
+   the NULL keyword under the default option, and it is not a slot, so null=X does not reach it (a NULL in a list or under a name is reached) *)
+Theorem C11_call_named_null_refuted :
+  parse_result MSimple [] (JInt 0%Z) (RCall "null" (RList []) []) = Some (JDict [("null", JDict [])]) /\
+  parse_result MSimple [] (JInt 0%Z) (RList [RMark; RStr "a"]) = Some (JList [JInt 0%Z; JStr "a"]) /\
+  parse_result MSimple [] (JDict [("null", JDict [])]) (RPR true [("v", [RMark])] []) = Some (JDict [("v", JDict [("null", JDict [])])]).
+Proof. vm_compute. repeat split; reflexivity. Qed.
